@@ -15,6 +15,10 @@ Record cnt := mkCnt { brace : Z; bracket : Z; parant : Z }.
 Definition is_char (c : N) (t : tok) : bool :=
   match val t with [x] => (x =? c)%N | _ => false end.
 
+(* an identifier written as \7b has the value { too: only a token that is not
+   an identifier counts as the delimiter (util.py: `isident`) *)
+Definition is_delim (c : N) (t : tok) : bool := is_char c t && negb (tokty_eqb (ty t) T_IDENT).
+
 (* ends as characters, end token types, initial counters, mediaquery special *)
 Definition mode_ends (m : mode) : list N :=
   match m with
@@ -47,24 +51,24 @@ Definition mode_init (m : mode) (start : option tok) : cnt :=
 
 (* the start token only ever opens *)
 Definition count_start (c : cnt) (t : tok) : cnt :=
-  if is_char 91 t then mkCnt (brace c) (bracket c + 1) (parant c)
-  else if is_char 123 t then mkCnt (brace c + 1) (bracket c) (parant c)
-  else if is_char 40 t || tokty_eqb (ty t) T_FUNCTION then mkCnt (brace c) (bracket c) (parant c + 1)
+  if is_delim 91 t then mkCnt (brace c) (bracket c + 1) (parant c)
+  else if is_delim 123 t then mkCnt (brace c + 1) (bracket c) (parant c)
+  else if is_delim 40 t || tokty_eqb (ty t) T_FUNCTION then mkCnt (brace c) (bracket c) (parant c + 1)
   else c.
 
 Definition count_tok (c : cnt) (t : tok) : cnt :=
-  if is_char 123 t then mkCnt (brace c + 1) (bracket c) (parant c)
-  else if is_char 125 t then mkCnt (brace c - 1) (bracket c) (parant c)
-  else if is_char 91 t then mkCnt (brace c) (bracket c + 1) (parant c)
-  else if is_char 93 t then mkCnt (brace c) (bracket c - 1) (parant c)
-  else if is_char 40 t || tokty_eqb (ty t) T_FUNCTION then mkCnt (brace c) (bracket c) (parant c + 1)
-  else if is_char 41 t then mkCnt (brace c) (bracket c) (parant c - 1)
+  if is_delim 123 t then mkCnt (brace c + 1) (bracket c) (parant c)
+  else if is_delim 125 t then mkCnt (brace c - 1) (bracket c) (parant c)
+  else if is_delim 91 t then mkCnt (brace c) (bracket c + 1) (parant c)
+  else if is_delim 93 t then mkCnt (brace c) (bracket c - 1) (parant c)
+  else if is_delim 40 t || tokty_eqb (ty t) T_FUNCTION then mkCnt (brace c) (bracket c) (parant c + 1)
+  else if is_delim 41 t then mkCnt (brace c) (bracket c) (parant c - 1)
   else c.
 
 Definition zero3 (c : cnt) : bool := (brace c =? 0)%Z && (bracket c =? 0)%Z && (parant c =? 0)%Z.
 
 Definition is_end (m : mode) (t : tok) : bool :=
-  existsb (fun e => is_char e t) (mode_ends m) || existsb (tokty_eqb (ty t)) (mode_endtypes m).
+  existsb (fun e => is_delim e t) (mode_ends m) || existsb (tokty_eqb (ty t)) (mode_endtypes m).
 
 Definition stops (m : mode) (c : cnt) (t : tok) : bool :=
   (zero3 c && is_end m t)
